@@ -31,7 +31,7 @@ package main
 // `nil`, `true`, `false`, `len`, `panic`, `string`, `int`, `int64` are the predeclared ones; a method name that is also the name of a
 // method declared in the file is a call of that function; no name is declared in two nested scopes of one function (the
 // interpreter's environment is flat); a `for` loop is exactly `for i := 0; i < n; i++` with a body that assigns neither i nor n;
-// `range` has the form `for _, x := range e`; `default` is the last clause of a switch; no labels, goto, break, fallthrough, defer, go.
+// `range` has the form `for _, x := range e`; a loop body assigns no variable declared outside the loop; `default` is the last clause of a switch; no labels, goto, break, fallthrough, defer, go.
 
 import (
 	"bytes"
@@ -512,6 +512,57 @@ func rppAssigns(l []ast.Stmt, names map[string]bool) bool {
 	return found
 }
 
+// a loop body may write only variables it declares itself (the interpreter runs every iteration in the environment of the loop)
+func rppWritesOuter(l []ast.Stmt) (string, bool) {
+	declared := map[string]bool{}
+	var written []string
+	for _, s := range l {
+		ast.Inspect(s, func(n ast.Node) bool {
+			switch x := n.(type) {
+			case *ast.AssignStmt:
+				for _, e := range x.Lhs {
+					if id, ok := e.(*ast.Ident); ok {
+						if x.Tok == token.DEFINE {
+							declared[id.Name] = true
+						} else {
+							written = append(written, id.Name)
+						}
+					}
+				}
+			case *ast.IncDecStmt:
+				if id, ok := x.X.(*ast.Ident); ok {
+					written = append(written, id.Name)
+				}
+			case *ast.RangeStmt:
+				for _, e := range []ast.Expr{x.Key, x.Value} {
+					if id, ok := e.(*ast.Ident); ok {
+						if x.Tok == token.DEFINE {
+							declared[id.Name] = true
+						} else {
+							written = append(written, id.Name)
+						}
+					}
+				}
+			case *ast.ValueSpec:
+				for _, id := range x.Names {
+					declared[id.Name] = true
+				}
+			case *ast.UnaryExpr:
+				if id, ok := x.X.(*ast.Ident); ok && x.Op == token.AND {
+					written = append(written, id.Name)
+				}
+			}
+			return true
+		})
+	}
+	for _, w := range written {
+		if w != "_" && !declared[w] {
+			return w, true
+		}
+	}
+	return "", false
+}
+
 func (t *rppTr) assign(x *ast.AssignStmt) rpn {
 	if len(x.Rhs) != 1 {
 		t.fail(x.Pos(), "assignment with several right-hand sides")
@@ -649,6 +700,9 @@ func (t *rppTr) stmt(s ast.Stmt) rpn {
 		if rppAssigns(x.Body.List, map[string]bool{iv.Name: true, cn.Name: true}) {
 			t.fail(x.Pos(), "the loop body assigns %s or %s", iv.Name, cn.Name)
 		}
+		if w, bad := rppWritesOuter(x.Body.List); bad {
+			t.fail(x.Pos(), "the loop body assigns %s, declared outside the loop", w)
+		}
 		t.push()
 		defer t.pop()
 		i, n := t.ident(iv.Pos(), iv.Name), t.ident(cn.Pos(), cn.Name)
@@ -671,6 +725,9 @@ func (t *rppTr) stmt(s ast.Stmt) rpn {
 		}
 		if rppAssigns(x.Body.List, map[string]bool{v.Name: true}) {
 			t.fail(x.Pos(), "the loop body assigns %s", v.Name)
+		}
+		if w, bad := rppWritesOuter(x.Body.List); bad {
+			t.fail(x.Pos(), "the loop body assigns %s, declared outside the loop", w)
 		}
 		bsx, bcoq := t.scoped(x.Body.List)
 		return rpn{"(range " + n + " " + e.sx + bsx + ")", "RsRange " + rppCoqStr(n) + " (" + e.coq + ")\n" + bcoq}
